@@ -37,6 +37,7 @@ type Driver struct {
 	known     []KnownFinding
 	knownHit  map[string]bool
 	retried   int
+	nBounded, boundedHeld int
 }
 
 type funcInfo struct {
@@ -181,6 +182,9 @@ func (d *Driver) Run() int {
 	}
 	if (d.Prop == "" || d.Prop == "C04") && strings.Contains(","+d.Targets+",", ",rt,") && d.OnlyFunc == "" && d.OnlyVariant == "" {
 		d.extraC04(loader, filepath.Join(d.Work, "rt"))
+	}
+	if d.wantsBoundedSCC() {
+		d.extraBoundedSCC()
 	}
 	// generate VCs
 	for _, j := range jobs {
@@ -533,7 +537,7 @@ func (d *Driver) solveAll() {
 	// depend on it)
 	var again []*Query
 	for _, q := range d.queries {
-		if !q.IsCover && q.Result != "unsat" && q.Solver != "exhaustive" && q.Kind != "lemma" {
+		if !q.IsCover && q.Result != "unsat" && q.Solver != "exhaustive" && q.Kind != "lemma" && q.Kind != "bounded" {
 			again = append(again, q)
 		}
 	}
